@@ -199,12 +199,19 @@ def byte_value(ivs, i):
         if isinstance(v, tuple) and v and v[0] == "fill":
             return v[1]
         if isinstance(v, tuple) and v and v[0] == "array" and len(v) - 1 == hi - lo:
-            return v[1 + i - lo]
+            return byte_value([(i, i + 1, iv[2], iv[3], v[1 + i - lo])], i)
         if isinstance(v, tuple) and v and v[0] == "be":
             return ("be-byte", v[1], i - lo, hi - lo)
         if isinstance(v, tuple) and v and isinstance(v[0], str) and v[0].endswith("to_be_bytes") and len(v) == 2:
             return ("be-byte", v[1], i - lo, hi - lo)
         if hi - lo == 1:
+            # a single byte that is element k of x.to_be_bytes(): the k-th big-endian byte of x
+            if isinstance(v, tuple) and len(v) == 2 and isinstance(v[1], str) and isinstance(v[0], tuple) and len(v[0]) == 2 \
+                    and isinstance(v[0][0], str):
+                m_ = re.match(r"u(16|32|64)::to_be_bytes$", v[0][0])
+                k_ = re.match(r"\[(\d+)\]$", v[1])
+                if m_ and k_:
+                    return ("be-byte", v[0][1], int(k_.group(1)), int(m_.group(1)) // 8)
             return v
         return ("byte-of", v, i - lo, hi - lo)
     return None
